@@ -7,36 +7,17 @@ from dpapi_ng._rpc import _pdu, _request
 from symex import values as V
 from vlib.api import all_of, harness, truth
 
+from . import secctx
 from .world import seq_eq
 
 META = dict(assumptions=[
-    "ideal security context: unwrap(header, body, trailer, signature, sign_header) returns the sealed plaintext iff body and signature (and, with header "
+    "ideal security context at the pyspnego boundary (the repository's AuthenticationProvider runs on top of it): unwrap_iov returns the sealed plaintext iff body and signature (and, with header "
     "signing, header and trailer) are bit-for-bit the ones the peer produced; otherwise it raises. The strength of NTLM/Kerberos sealing is outside the claim.",
     "the adversary controls every byte of the reply; the transport delivers exactly frag_len bytes",
 ])
 P = "C16"
 STUB = 16  # sealed stub+padding length of the authentic reply
 SIG = 16
-
-
-class SealError(Exception):
-    pass
-
-
-class IdealAuth:
-    def __init__(self, authentic):
-        self.a = authentic
-        self.calls = 0
-
-    def unwrap(self, header, body, trailer, signature, sign_header):
-        self.calls += 1
-        a = self.a
-        conds = [seq_eq(body, a["body"]), seq_eq(signature, a["sig"])]
-        if sign_header:
-            conds += [seq_eq(header, a["header"]), seq_eq(trailer, a["trailer"])]
-        if not truth(all_of(conds)):
-            raise SealError("signature verification failed")
-        return a["plain"]
 
 
 def _authentic(c):
@@ -60,7 +41,9 @@ def _client(c, auth, sign_header):
          must_reach=("returned stub is the sealed plaintext",))
 def response_any(c, n, sign_header):
     a = _authentic(c)
-    auth = IdealAuth(a)
+    ctx = secctx.IdealContext(c, SIG)
+    ctx.add_authentic(a["header"], a["body"], a["trailer"], a["sig"], a["plain"])
+    auth = secctx.provider(ctx)
     client = _client(c, auth, sign_header)
     adv = c.bytes("adv", n)
     c.assume(all_of([adv[2] == 2, adv[8] == n & 0xFF, adv[9] == n >> 8]))
@@ -68,9 +51,11 @@ def response_any(c, n, sign_header):
     ph = c.call(_pdu.PDUHeader.unpack, adv[:16])
     r = c.call(client._process_response, resp, ph, _request.Response, (24, 24 + STUB))
     # a Response was accepted: it must be what the peer sealed
-    c.check(all_of([seq_eq(r.stub_data, a["plain"]), auth.calls == 1]), "returned stub is the sealed plaintext")
+    c.check(all_of([seq_eq(r.stub_data, a["plain"]), ctx.unwrap_calls == 1]), "returned stub is the sealed plaintext")
     if sign_header:
-        c.check(r.sec_trailer is not None and truth(seq_eq(c.call(r.sec_trailer.pack)[:8], a["trailer"])), "trailer is the authenticated one")
+        # the octets *as received* must be the ones the peer signed (frag_len = n, signature = 16 octets => trailer at n-24)
+        c.check(all_of([seq_eq(adv[:24], a["header"]), seq_eq(adv[n - SIG - 8 : n - SIG], a["trailer"])]), "header and trailer as received are the authenticated ones")
+    c.check(all_of([seq_eq(adv[n - SIG :], a["sig"]), seq_eq(adv[24 : n - SIG - 8], a["body"])]), "sealed body and signature as received are the authentic ones")
     return True
 
 
@@ -79,7 +64,9 @@ def response_any(c, n, sign_header):
          outside="longer replies of other types", must_reach=())
 def other_types(c, n):
     a = _authentic(c)
-    auth = IdealAuth(a)
+    ctx = secctx.IdealContext(c, SIG)
+    ctx.add_authentic(a["header"], a["body"], a["trailer"], a["sig"], a["plain"])
+    auth = secctx.provider(ctx)
     client = _client(c, auth, True)
     adv = c.bytes("adv", n)
     c.assume(all_of([adv[2] != 2, adv[8] == n & 0xFF, adv[9] == n >> 8]))
